@@ -11,7 +11,7 @@
 (* (entry point x parser options x fetcher kind x import graph).           *)
 (***************************************************************************)
 EXTENDS SoupContract, IOUtils
-CONSTANTS MaxToks, Depths, PairContexts, MaxSelSoup, RunLens
+CONSTANTS MaxToks, Depths, PairContexts, MaxSelSoup, RunLens, WideLens
 VARIABLE row
 
 Contexts == {"sheet", "after-charset", "import-prelude", "namespace-prelude", "media-prelude", "media-rules", "page-prelude", "page-block",
@@ -113,7 +113,12 @@ RunBodies == {"letters", "digits", "spaces", "bs-pairs", "stars", "escaped-quote
 RunEnds == {"eof", "newline-rule", "closer", "junk"}
 LongRunRows == {[kind |-> "longrun", opener |-> o, body |-> b, n |-> n, end |-> e, ctx |-> c, entry |-> "string"] :
                    o \in RunOpeners, b \in RunBodies, n \in RunLens, e \in RunEnds, c \in {"sheet", "decl-value"}}
-Rows == TokRows \cup NestRows \cup ConfigRows \cup CodecRows \cup BombRows \cup SelSoupRows \cup LongRunRows
+\* width instead of depth: lists of WideLen items at every place where the grammar has a list (a flat list must not cost
+\* recursion depth - the generators that skip white space in values once nested as deep as the value was long)
+WideKinds == {"value-space", "value-comma", "value-slash", "selector-list", "compound-selector", "descendants", "media-list", "import-media",
+              "declarations", "rules", "function-args", "media-rules", "margin-boxes", "variables", "comments", "namespaces", "imports"}
+WideRows == {[kind |-> "wide", what |-> w, n |-> n, entry |-> "string"] : w \in WideKinds, n \in WideLens}
+Rows == TokRows \cup NestRows \cup ConfigRows \cup CodecRows \cup BombRows \cup SelSoupRows \cup LongRunRows \cup WideRows
 Init == row \in Rows
 Next == UNCHANGED row
 Spec == Init /\ [][Next]_row
